@@ -214,6 +214,51 @@ static RSet eval_run(const std::vector<RSet> &operands, const std::vector<int> &
             }
             acc = nx;
         }
+        // '*' and '/' share a documented level; an implementation may still take the divisions first (a * (b / c)), which is
+        // the same number but can round differently. If that order is not exact, the left-to-right value is not either.
+        bool has_mul = false, has_div = false;
+        for (size_t i = 0; i < n; i++) {
+            has_mul = has_mul || std::string(OPS[ops[i]]) == "*";
+            has_div = has_div || std::string(OPS[ops[i]]) == "/";
+        }
+        if (has_mul && has_div) {
+            std::vector<RSet> factors;
+            RSet              cur = operands[0];
+            for (size_t i = 0; i < n; i++) {
+                if (std::string(OPS[ops[i]]) == "/") {
+                    RSet nx;
+                    for (auto &a : cur) {
+                        for (auto &b : operands[i + 1]) {
+                            add_unique(nx, apply(ops[i], a, b));
+                        }
+                    }
+                    cur = nx;
+                } else {
+                    factors.push_back(cur);
+                    cur = operands[i + 1];
+                }
+            }
+            factors.push_back(cur);
+            RSet alt = factors[0];
+            for (size_t i = 1; i < factors.size(); i++) {
+                RSet nx;
+                for (auto &a : alt) {
+                    for (auto &b : factors[i]) {
+                        add_unique(nx, apply(12 /* '*' */, a, b));
+                    }
+                }
+                alt = nx;
+            }
+            bool rounds = false;
+            for (auto &a : alt) {
+                rounds = rounds || a.inexact || a.unspec;
+            }
+            if (rounds) {
+                for (auto &a : acc) {
+                    a.inexact = true;
+                }
+            }
+        }
         return acc;
     }
     // the document does not order these: every bracketing is admissible
